@@ -117,6 +117,78 @@ def reorder_sort_declarations(txt):
 UNSUPPORTED = ('(as union', 'setminus', '(as intersection', '(lambda ', '(_ map', 'subset', 'str.from_code')
 
 
+class Cvc5Job:
+    """cvc5 on the SMT-LIB export of a solver, running beside the z3 attempts"""
+
+    def __init__(self, solver, timeout_ms, label):
+        self.label = label
+        self.proc = None
+        self.path = None
+        self.result = None
+        self.deadline = time.time() + timeout_ms / 1000 + 5
+        if not os.path.exists(CVC5):
+            self.result = 'unsupported'
+            return
+        try:
+            txt = to_cvc5_text(solver)
+        except z3.Z3Exception:
+            self.result = 'unsupported'
+            return
+        if any(u in txt for u in UNSUPPORTED):
+            self.result = 'unsupported'
+            return
+        fd, self.path = tempfile.mkstemp(suffix='.smt2', prefix='pyvc_')
+        with os.fdopen(fd, 'w') as f:
+            f.write(txt)
+        self.proc = subprocess.Popen([CVC5, '--dt-nested-rec', '--strings-exp', f'--tlimit={int(timeout_ms)}', self.path],
+                                     stdout=subprocess.PIPE, stderr=subprocess.PIPE, text=True)
+
+    def poll(self, wait=False):
+        """the answer if available (waits up to the deadline when wait=True), else None"""
+        if self.result is not None:
+            return self.result
+        try:
+            if wait:
+                out, err = self.proc.communicate(timeout=max(0.1, self.deadline - time.time()))
+            else:
+                if self.proc.poll() is None:
+                    if time.time() > self.deadline:
+                        self.kill()
+                        self.result = 'unknown'
+                    return self.result
+                out, err = self.proc.communicate()
+        except subprocess.TimeoutExpired:
+            self.kill()
+            self.result = 'unknown'
+            return self.result
+        lines = out.strip().splitlines()
+        if lines and lines[0] in ('unsat', 'sat', 'unknown'):
+            self.result = lines[0]
+        elif 'timeout' in (out + err) or 'interrupted' in (out + err):
+            self.result = 'unknown'
+        else:
+            self.result = 'unsupported'
+        self._cleanup()
+        return self.result
+
+    def kill(self):
+        if self.proc is not None and self.proc.poll() is None:
+            try:
+                self.proc.kill()
+                self.proc.communicate(timeout=5)
+            except Exception:
+                pass
+        self._cleanup()
+
+    def _cleanup(self):
+        if self.path:
+            try:
+                os.unlink(self.path)
+            except OSError:
+                pass
+            self.path = None
+
+
 def run_cvc5(solver: z3.Solver, timeout_ms):
     """returns 'unsat' | 'sat' | 'unknown' | 'unsupported'"""
     if not os.path.exists(CVC5):
@@ -184,7 +256,11 @@ def discharge(ob, timeout_ms):
             s.add(neg)
         else:
             fs = list(ob.hyps) + [neg]
-            fs = fs + recfuns.fuel(fs, depth)
+            if mode == 'abs':
+                fs = fs + recfuns.fuel(fs, depth)
+            else:
+                # goal-directed: deep from the goal, one round from the hypotheses
+                fs = fs + recfuns.fuel(list(ob.hyps), depth + 2, goal=neg, hyp_depth=1)
             for f in fs:
                 s.add(recfuns.abstract(f))
         r = s.check()
@@ -194,22 +270,43 @@ def discharge(ob, timeout_ms):
     r = z3.unknown
     s = None
     # 1-2: abstraction with bounded unfolding (unsat there is unsat; sat there proves nothing)
-    for depth, tmo in ((1, 1500), (3, 4000)):
-        ra, sa = z3_try(min(timeout_ms, tmo), mode='abs', depth=depth)
-        ladder.append(f'abs{depth}:{ra}')
-        if ra == z3.unsat:
-            ob.status, ob.backend = 'discharged', f'z3(fuel={depth})'
-            ob.time = time.time() - t0
-            ob.ladder = ladder
-            return ob
-        if ra == z3.unknown:
-            c = run_cvc5(sa, min(timeout_ms, 15000))
-            ladder.append(f'cvc5-abs{depth}:{c}')
+    # z3 on the three abstractions; cvc5 runs beside it on every abstraction z3 left undecided
+    jobs = []
+
+    def done_by(job_or_none, backend):
+        for j in jobs:
+            if j is not job_or_none:
+                j.kill()
+        ob.status, ob.backend = 'discharged', backend
+        ob.time = time.time() - t0
+        ob.ladder = ladder
+        return ob
+
+    def cvc5_won(wait=False):
+        for j in jobs:
+            c = j.poll(wait)
+            if c is not None and not getattr(j, 'logged', False):
+                j.logged = True
+                ladder.append(f'cvc5-{j.label}:{c}')
             if c == 'unsat':
-                ob.status, ob.backend = 'discharged', f'cvc5(fuel={depth})'
-                ob.time = time.time() - t0
-                ob.ladder = ladder
-                return ob
+                return j
+        return None
+
+    for depth, tmo, mode_ in ((1, 1500, 'abs'), (2, 4000, 'goal'), (3, 4000, 'abs')):
+        ra, sa = z3_try(min(timeout_ms, tmo), mode=mode_, depth=depth)
+        ladder.append(f'{mode_}{depth}:{ra}')
+        if ra == z3.unsat:
+            return done_by(None, f'z3(fuel={depth})')
+        j = cvc5_won()
+        if j is not None:
+            return done_by(j, f'cvc5({j.label})')
+        if ra == z3.unknown:
+            jobs.append(Cvc5Job(sa, min(timeout_ms, 15000), f'{mode_}{depth}'))
+    j = cvc5_won(wait=True)
+    if j is not None:
+        return done_by(j, f'cvc5({j.label})')
+    for j in jobs:
+        j.kill()
     r, s = z3_try(min(timeout_ms, 2500))
     ladder.append(f'z3:{r}')
     if r == z3.unknown:
